@@ -78,6 +78,8 @@ INVARIANT TrAtMostOneCell
 INVARIANT TrGoalLeadsToTerminal
 INVARIANT TrTerminalAbsorbing
 INVARIANT TrMarginal
+INVARIANT TrNormalize
+INVARIANT TrReachableClosed
 INVARIANT TrClosed
 """
 # invariant of the trace spec -> clause names it stands for
@@ -88,6 +90,8 @@ TRACE_INV_CLAUSES = {
     "TrGoalLeadsToTerminal": {"own-goal-not-terminal"},
     "TrTerminalAbsorbing": {"terminal-not-absorbing", "terminal-pays"},
     "TrMarginal": {"marginal", "marginal-sum"},
+    "TrNormalize": {"normalize"},
+    "TrReachableClosed": {"reachable-states-not-closed"},
     "TrClosed": {"closure", "malformed"},
 }
 
@@ -142,6 +146,11 @@ def rand_layout(rng, W, H):
         if pick:
             a2 = rng.choice(pick)
     PN, PD = rng.choice(FENCE_PROBS)
+    # a very small but positive fence success probability 10^-k: the spec gets the surrogate 1/2 (same supports,
+    # same reachable set; TLC's integers cannot carry 10^-12) and the exact probabilities come from py_ref_dist
+    tiny = rng.choice([9, 12, 10]) if fences and rng.random() < 0.12 else 0
+    if tiny:
+        PN, PD = 1, 2
     lay = {
         "W": W, "H": H,
         "obst": [list(c) for c in obst],
@@ -154,6 +163,9 @@ def rand_layout(rng, W, H):
         "GR": rng.choice([10, 3]), "SC": rng.choice([-1, -1, -2, 0]), "CC": rng.choice([0, -3, -3]),
         "_walls": [[list(c), d] for c, d in walls], "_fences": [[list(c), d] for c, d in fences],
         "_custom": rng.random() < 0.3,
+        "_tiny": tiny,
+        # how the layout text separates its cells: one blank, column-aligned padding, tabs, indented block
+        "_pad": rng.choice(["single", "single", "single", "aligned", "aligned", "tabs", "indent"]),
     }
     return lay
 
@@ -186,10 +198,22 @@ def render(lay):
     for i, c in enumerate(lay["init"]):
         toks[tuple(c)].append(ag[i])
     rows = []
+    pad = lay.get("_pad", "single")
+    cell = {c: (".".join(t) if t else ".") for c, t in toks.items()}
+    width = {x: max(len(cell[(x, y)]) for y in range(H)) for x in range(W)}
     for y in range(H - 1, -1, -1):
-        rows.append(" ".join(".".join(toks[(x, y)]) if toks[(x, y)] else "." for x in range(W)))
+        if pad == "single":
+            rows.append(" ".join(cell[(x, y)] for x in range(W)))
+        elif pad == "tabs":
+            rows.append("\t".join(cell[(x, y)] for x in range(W)))
+        else:       # column aligned: every cell padded to its column's width, two blanks between columns
+            rows.append(("        " if pad == "indent" else "") + "  ".join(cell[(x, y)].ljust(width[x]) for x in range(W)).rstrip()
+                        + ("  " if pad == "indent" and y % 2 else ""))
     s = "\n".join(rows)
-    opts = dict(fence_success_prob=lay["PN"] / lay["PD"], collision_prob=None if lay["hack"] else 0.5,
+    if pad == "indent":
+        s = "\n" + s + "\n    "
+    fence_p = 10.0 ** -lay["_tiny"] if lay.get("_tiny") else lay["PN"] / lay["PD"]
+    opts = dict(fence_success_prob=fence_p, collision_prob=None if lay["hack"] else 0.5,
                 goal_reward=lay["GR"], step_cost=lay["SC"], collision_cost=lay["CC"])
     if custom:
         as_dict = (lay["W"] + lay["H"]) % 2 == 0
@@ -278,6 +302,7 @@ class RealGame:
         """25 rows of (projected outcome, probability, rewards, raw outcome), and per row the two per-agent
         marginals of the returned table as marginalize() gives them ([] when it raises)."""
         rows, margs = [], []
+        sp = self.project(s)
         for k in range(25):
             ja = self.ja(k)
             d = self.gg.next_state_dist(s, ja)
@@ -296,7 +321,27 @@ class RealGame:
                         rr = [float(r[an]) for an in self.names]
                     except Exception:                   # noqa: BLE001 - no reward at all: logged as not-a-number
                         rr = [float("nan"), float("nan")]
-                    merged[key] = {"n": n, "p": p, "r": rr, "raw": ns}
+                    merged[key] = {"n": n, "p": p, "r": rr, "raw": ns, "z": 0.0}
+            # normalize() / marginalize() of the returned table: wherever a constraint is active (there the raw row
+            # weights do not sum to one) and on every third other row
+            extras = merged and (k % 3 == 0 or nontrivial_pair(self.lay, sp, divmod(k, 5)))
+            if not extras:
+                for o in merged.values():
+                    o["z"] = o["p"]
+                rows.append(list(merged.values()))
+                margs.append([])
+                continue
+            if merged:
+                # normalize() of the returned table: its row weights exp(logit) must be the probabilities
+                try:
+                    nz = d.normalize()
+                    for ns, lg in zip(nz.support, nz.logits):
+                        key = str(self.project(ns))
+                        if key in merged:
+                            merged[key]["z"] += math.exp(min(float(lg), 700.0)) if float(lg) == float(lg) else float("nan")
+                except Exception:                       # noqa: BLE001 - no normalised table at all
+                    for o in merged.values():
+                        o["z"] = float("nan")
             rows.append(list(merged.values()))
             mm = []
             for an in self.names:
@@ -367,13 +412,14 @@ def record_layout(ctx, lay):
                     raw[key] = o["raw"]
                     order.append(o["n"])
     # the library's own reachability (anchor: reachability over dictionary-valued states)
-    lib = None
+    lib, lib_proj = None, None
     try:
         if _LIB_TIMEOUTS[0] >= 2:
             raise _Timeout("reachable_states() not called any more after two time-outs")
         with time_limit(10 + len(order) // 10):
             lib_states = list(gg.reachable_states())
-        lib = sorted({str(rg.project(s)) for s in lib_states})
+        lib_proj = [rg.project(s) for s in lib_states]
+        lib = sorted({str(x) for x in lib_proj})
         lib_n = len(lib_states)
         ctx.evaluations += 1
     except Exception as e:                              # noqa: BLE001
@@ -381,7 +427,8 @@ def record_layout(ctx, lay):
             _LIB_TIMEOUTS[0] += 1
         lib, lib_n = f"{type(e).__name__}: {e}"[:200], -1
     return {"lay": lay, "string": rg.string, "states": order, "events": events, "margs": margs, "capped": capped, "error": error,
-            "lib_states": lib, "lib_n": lib_n, "init_n": len(init_support)}
+            "lib_states": lib, "lib_proj": lib_proj if not isinstance(lib, str) else None, "lib_n": lib_n,
+            "init_n": len(init_support)}
 
 
 # ---------------------------------------------------------------------------------- independent oracles
@@ -417,7 +464,7 @@ def py_clauses(lay, s, ja, n):
     return out
 
 
-def py_ref_dist(lay, s, ja):
+def py_ref_dist(lay, s, ja, p=None):
     """Independent exact (Fraction) statement of what the code computes: {outcome: probability}."""
     if s == T:
         return {str(T): F(1)}
@@ -425,7 +472,7 @@ def py_ref_dist(lay, s, ja):
     if own(0, s[0]) or own(1, s[1]):
         return {str(T): F(1)}
     eps = F(1, EPSD)
-    p = F(lay["PN"], lay["PD"])
+    p = F(lay["PN"], lay["PD"]) if p is None else p
     W, H = lay["W"], lay["H"]
     obst = {tuple(c) for c in lay["obst"]}
     walls = {(tuple(a), tuple(b)) for a, b in lay["walls"]}
@@ -483,13 +530,19 @@ def game_pipeline(ctx, recs, *, selftest_expect=None, tag=""):
             if rows is None:
                 continue
             expanded.append(n)
-            mg = r.get("margs", {}).get(str(n)) or [[[], []] for _ in rows]
+            mg = r.get("margs", {}).get(str(n)) or [[] for _ in rows]
             traces.append({"lid": li, "kind": "expand", "s": n, "expanded": [],
                            "marg": [[[{"c": e["c"], "q": quant(e["p"])} for e in m] for m in mm] for mm in mg],
-                           "rows": [[{"n": o["n"], "q": quant(o["p"]), "r": [qrew(x) for x in o["r"]]} for o in row]
+                           "rows": [[{"n": o["n"], "q": quant(o["p"]), "r": [qrew(x) for x in o["r"]],
+                                      "z": quant(o.get("z", o["p"]))} for o in row]
                                     for row in rows]})
             tmeta.append((li, n))
-        traces.append({"lid": li, "kind": "cover", "s": r["lay"]["init"], "expanded": expanded, "rows": [], "marg": []})
+        if r["states"][0] != r["lay"]["init"]:
+            # the game starts somewhere else than the layout says: no clause of the statement by itself (the physical
+            # clauses are judged against the layout wherever the agents really are)
+            ctx.drift("initial-state-differs-from-layout", {"layout": digest(r["lay"]), "real": r["states"][0], "layout_init": r["lay"]["init"]})
+        traces.append({"lid": li, "kind": "cover", "s": r["states"][0], "expanded": expanded, "rows": [], "marg": [],
+                       "haslib": 1 if r.get("lib_proj") is not None else 0, "lib": r.get("lib_proj") or []})
         tmeta.append((li, None))
     batch = {"layouts": layouts, "traces": traces}
 
@@ -540,6 +593,14 @@ def game_pipeline(ctx, recs, *, selftest_expect=None, tag=""):
                 continue
             raise TLCFailure(f"recorded closure is not closed / malformed (harness fault): {harness_fault[:2]} layout {li}")
         if tr["kind"] == "cover":
+            missing = [b["n"] for b in badset if b["c"] == "reachable-states-not-closed"]
+            if missing:
+                shape = f"fence_success_prob=1e-{lay['_tiny']}" if lay.get("_tiny") else "ordinary-layout"
+                ctx.violation(f"C18:TabularStochasticGame.reachable_states:not-closed:{shape}",
+                              f"layout {li}\n{r['string']}\nreachable_states() has {r['lib_n']} states and lacks {len(missing)} "
+                              f"state(s) that next_state_dist reaches with positive probability from the initial state, e.g. {missing[0]}",
+                              {"kind": "game", "lay": lay, "state": missing[0], "ja": 0, "clause": "reachable-states-not-closed"})
+                nviol += 1
             continue
         # machinery cross-check: independent Python statement of the relation on a sample of traces
         if ti % 7 == 0:
@@ -548,7 +609,7 @@ def game_pipeline(ctx, recs, *, selftest_expect=None, tag=""):
                 for o in row:
                     for c in py_clauses(lay, n, divmod(k, 5), o["n"]):
                         mine.add((k + 1, str(o["n"]), c))
-            theirs = {(b["ja"], str(b["n"]), b["c"]) for b in badset if b["c"] not in ("sum", "terminal-pays", "marginal", "marginal-sum")}
+            theirs = {(b["ja"], str(b["n"]), b["c"]) for b in badset if b["c"] not in ("sum", "terminal-pays", "marginal", "marginal-sum", "normalize")}
             if mine != theirs:
                 raise TLCFailure(f"TLA+ relation and Python relation disagree on layout {li} state {n}: {sorted(mine ^ theirs)[:4]}")
             ctx.count("relation_crosschecks")
@@ -561,7 +622,8 @@ def game_pipeline(ctx, recs, *, selftest_expect=None, tag=""):
             for c, b in sorted(by_clause.items()):
                 k = b["ja"] - 1
                 site = ("joint_rewards" if c == "terminal-pays" else
-                        "next_state_dist+marginalize" if c.startswith("marginal") else "next_state_dist")
+                        "next_state_dist+marginalize" if c.startswith("marginal") else
+                        "next_state_dist+normalize" if c == "normalize" else "next_state_dist")
                 shape = game_shape(lay, n, divmod(k, 5))
                 row = r["events"][str(n)][k]
                 ctx.violation(f"C18:TabularGridGame.{site}:{c}:{shape}",
@@ -584,6 +646,12 @@ def game_pipeline(ctx, recs, *, selftest_expect=None, tag=""):
                 if set(pd) != set(sd) or any(pd[x] != sd[x][0] for x in pd):
                     raise TLCFailure(f"TLA+ reference distribution and Python one disagree: layout {li} state {n} ja {k}: {pd} vs {sd}")
                 ctx.count("refdist_crosschecks")
+            if lay.get("_tiny"):
+                # surrogate fence probability in the spec: supports and rewards from TLC, probabilities from the
+                # independent exact oracle with the real 10^-k
+                pd_ = py_ref_dist(lay, n, (a1, a2), p=F(1, 10 ** lay["_tiny"]))
+                if set(pd_) == set(sd):
+                    sd = {x: (pd_[x], sd[x][1]) for x in sd}
             real = {str(o["n"]): o for o in row}
             why = None
             if set(real) != set(sd):
@@ -612,7 +680,7 @@ def game_pipeline(ctx, recs, *, selftest_expect=None, tag=""):
                        "only_machine": sorted(mc_states.get(li, set()) - mine)[:3]})
         if isinstance(r["lib_states"], str):
             ctx.drift("reachable_states-raises", {"layout": digest(r["lay"]), "exc": r["lib_states"]})
-        elif not r["capped"] and (set(r["lib_states"]) != mine or r["lib_n"] != len(mine)):
+        elif not r["capped"] and not mine - set(r["lib_states"]) and (set(r["lib_states"]) != mine or r["lib_n"] != len(mine)):
             ctx.drift("reachable_states-vs-closure",
                       {"layout": digest(r["lay"]), "closure": len(mine), "reachable_states": r["lib_n"],
                        "missing": sorted(mine - set(r["lib_states"]))[:3], "extra": sorted(set(r["lib_states"]) - mine)[:3]})
@@ -709,6 +777,15 @@ def handmade_layouts():
              goals=[{"cell": [2, 0], "owners": [1]}, {"cell": [0, 1], "owners": [2]}]),
         base(3, 2, [[0, 0], [2, 1]], _walls=[[[1, 0], "left"]], _fences=[[[1, 0], "right"], [[0, 0], "right"], [[2, 1], "below"]],
              PN=1, PD=1, obst=[[1, 1]], goals=[{"cell": [2, 0], "owners": [1]}]),
+        # the lower row can only be entered across a fence that is crossed with a very small positive probability
+        base(3, 2, [[0, 1], [2, 1]], _fences=[[[0, 1], "below"], [[1, 1], "below"], [[2, 1], "below"]], _tiny=9,
+             goals=[{"cell": [0, 0], "owners": [2]}, {"cell": [2, 0], "owners": [1]}], _pad="aligned"),
+        base(3, 3, [[0, 2], [1, 2]], _fences=[[[0, 2], "below"], [[1, 2], "below"], [[2, 2], "below"], [[1, 1], "below"]], _tiny=12,
+             obst=[[0, 1]], goals=[{"cell": [2, 0], "owners": [1, 2]}], _pad="tabs"),
+        # the library's own column-aligned example (cells separated by runs of blanks, indented block)
+        base(9, 3, [[3, 1], [5, 1]], obst=[[x, y] for y in (0, 2) for x in range(9) if x != 4],
+             goals=[{"cell": [4, 2], "owners": [1]}, {"cell": [0, 1], "owners": [1]}, {"cell": [8, 1], "owners": [2]},
+                    {"cell": [4, 0], "owners": [2]}], _pad="indent"),
     ]
 
 
@@ -743,11 +820,12 @@ INVARIANT JoinCommutes
 INVARIANT IndependentProduct
 INVARIANT MixLaw
 INVARIANT MargLaw
+INVARIANT NormLaw
 INVARIANT StackWellFormed
 INVARIANT ExponentClasses
 INVARIANT ClassOfProduct
 """
-FACTOR_INVS = ["JoinLaw", "JoinCommutes", "IndependentProduct", "MixLaw", "MargLaw", "StackWellFormed",
+FACTOR_INVS = ["JoinLaw", "JoinCommutes", "IndependentProduct", "MixLaw", "MargLaw", "NormLaw", "StackWellFormed",
                "ExponentClasses", "ClassOfProduct"]
 LN10 = math.log(10.0)
 
@@ -797,6 +875,12 @@ def small_table(rng, vs, nvals=3, maxrows=3, zero=0.15):
     return t
 
 
+def in_order(tab, order):
+    """Same table, variables listed in the given key order."""
+    idx = [tab["vars"].index(v) for v in order]
+    return {"vars": list(order), "den": tab["den"], "rows": [{"vals": [r["vals"][i] for i in idx], "w": r["w"]} for r in tab["rows"]]}
+
+
 def reorder(tab, rng):
     """Same table, variables listed in another key order."""
     perm = list(range(len(tab["vars"])))
@@ -813,7 +897,8 @@ def make_factor_cases(rng, n):
     cases = []
     while len(cases) < n:
         kind = rng.choice(["and", "and", "and3", "or", "or", "or3", "fence", "andmarg", "indep",
-                           "xand", "xand", "xchain", "xscale", "xor", "xmarg", "scalemarg", "fencemarg", "and3marg"])
+                           "xand", "xand", "xchain", "xscale", "xor", "xmarg", "scalemarg", "fencemarg", "and3marg",
+                           "normmix", "normmix", "scalenorm", "ornorm", "normdiv"])
         lab = rng.randrange(len(VALUE_LABELS))
         exps = None
         if kind == "xand":          # two ordinary-looking tables whose product leaves the float range
@@ -875,7 +960,41 @@ def make_factor_cases(rng, n):
                 allv += [v for v in t["vars"] if v not in allv]
             keep = [v for v in allv if rng.random() < 0.5] or allv[:1]
             prog = [instr("load", 1), instr("load", 2), instr("and"), instr("load", 3), instr("and"), instr("marg", keep=keep)]
-        if kind in ("xand", "xchain", "xscale", "xor", "xmarg", "scalemarg", "and3marg"):
+        elif kind == "normmix":     # (p & q).normalize() * a | r * b: a weighted mixture of the normalised join and r
+            vs1, vs2 = rand_vars(rng, 1, 2), rand_vars(rng, 1, 2)
+            t1, t2 = rand_table(rng, vs1, zero=0.1), rand_table(rng, vs2, zero=0.1)
+            merged = t1["vars"] + [v for v in t2["vars"] if v not in t1["vars"]]
+            t3 = in_order(rand_table(rng, merged, zero=0.15), merged)
+            (a, b), (c, d) = rng.choice(SCALES[:-1]), rng.choice(SCALES[:-1])
+            tabs = [t1, t2, t3]
+            exps = list(rng.choice([(0, 0), (0, 0), (-3, 0), (-60, -70), (40, 55), (0, 2)])) + [0]
+            prog = [instr("load", 1), instr("load", 2), instr("and"), instr("norm"), instr("scale", n=a, d=b),
+                    instr("load", 3), instr("scale", n=c, d=d), instr("or")]
+        elif kind == "scalenorm":   # (p * a).normalize() * b | q * c
+            vs = rand_vars(rng, 1, 2)
+            t1 = rand_table(rng, vs, zero=0.1)
+            t2 = in_order(rand_table(rng, vs), t1["vars"])
+            (a, b), (c, d), (e, f) = rng.choice(SCALES[:-1]), rng.choice(SCALES[:-1]), rng.choice(SCALES[:-1])
+            tabs, exps = [t1, t2, dict(t1)], [rng.choice([0, 0, -20, 7]), 0, 0]
+            prog = [instr("load", 1), instr("scale", n=a, d=b, e=rng.choice([0, -5, 3])), instr("norm"), instr("scale", n=c, d=d),
+                    instr("load", 2), instr("scale", n=e, d=f), instr("or")]
+        elif kind == "ornorm":      # (p * a | q * b).normalize() & r
+            vs = rand_vars(rng, 1, 2)
+            t1 = rand_table(rng, vs, zero=0.1)
+            t2 = in_order(rand_table(rng, vs, zero=0.1), t1["vars"])
+            t3 = rand_table(rng, vs[:1] + [v for v in rand_vars(rng, 0, 1) if v not in vs])
+            (a, b), (c, d) = rng.choice(SCALES[:-1]), rng.choice(SCALES[:-1])
+            tabs = [t1, t2, t3]
+            prog = [instr("load", 1), instr("scale", n=a, d=b), instr("load", 2), instr("scale", n=c, d=d), instr("or"),
+                    instr("norm"), instr("load", 3), instr("and")]
+        elif kind == "normdiv":     # ((p & q) / k).normalize()
+            vs = rand_vars(rng, 1, 2)
+            tabs = [rand_table(rng, vs + [v for v in rand_vars(rng, 0, 1) if v not in vs], zero=0.1),
+                    rand_table(rng, vs, zero=0.1), rand_table(rng, vs)]
+            a, b = rng.choice(SCALES[:-1])
+            exps = list(rng.choice([(0, 0), (-30, 0), (20, 20)])) + [0]
+            prog = [instr("load", 1), instr("load", 2), instr("and"), instr("div", n=a, d=b, e=rng.choice([0, 4, -6])), instr("norm")]
+        if kind in ("xand", "xchain", "xscale", "xor", "xmarg", "scalemarg", "and3marg", "normmix", "scalenorm", "ornorm", "normdiv"):
             big = max(abs(x) for x in (exps or [0]))
             cases.append({"tabs": tabs, "prog": prog, "top": TOPS, "lab": lab, "exps": exps or [0] * len(tabs),
                           # 10^300 is no float: beyond +-250 (not generated) only logits could be given
@@ -1009,6 +1128,16 @@ def py_eval(case, upto):
             vs, fn = stack.pop()
             stack.append((vs, {k: w * F(ins["n"], ins["d"]) for k, w in fn.items()}))
             xs.append(xs.pop() + ins.get("e", 0))
+        elif op == "div":
+            vs, fn = stack.pop()
+            stack.append((vs, {k: w / F(ins["n"], ins["d"]) for k, w in fn.items()}))
+            xs.append(xs.pop() - ins.get("e", 0))
+        elif op == "norm":
+            vs, fn = stack.pop()
+            tot = sum(fn.values())
+            stack.append((vs, {k: w / tot for k, w in fn.items()} if tot > 0 else fn))
+            xs.pop()
+            xs.append(0)
         elif op == "and":
             x2, x1 = xs.pop(), xs.pop()
             xs.append(x1 + x2)
@@ -1057,6 +1186,12 @@ def run_real_factor(case, paths):
                 elif op == "scale":
                     t = stack.pop()
                     stack.append(t * (ins["n"] / ins["d"] * 10.0 ** ins.get("e", 0)))
+                elif op == "div":
+                    t = stack.pop()
+                    stack.append(t / (ins["n"] / ins["d"] * 10.0 ** ins.get("e", 0)))
+                elif op == "norm":
+                    t = stack.pop()
+                    stack.append(t.normalize())
                 elif op == "and":
                     b, a = stack.pop(), stack.pop()
                     stack.append(a & b)
@@ -1121,8 +1256,10 @@ def compare_table(real, exp_rows, *, keys_flat=False, ex=0):
 
 
 def factor_signature(note, what, upstream=(), ex=0, before=()):
-    op = {"and": "product", "or": "mix", "marg": "marginalize"}.get(note["op"], note["op"])
-    if "scale" in upstream:
+    op = {"and": "product", "or": "mix", "marg": "marginalize", "norm": "normalize"}.get(note["op"], note["op"])
+    if "norm" in upstream:
+        op = "normalize+" + op        # the operand already differed after normalize()
+    elif "scale" in upstream:
         op = "__mul__+" + op          # the weighted operand already differed after scaling
     elif "load" in upstream:
         op = "__init__+" + op
@@ -1130,7 +1267,7 @@ def factor_signature(note, what, upstream=(), ex=0, before=()):
         shape = "disjoint-vars" if note["disjoint"] else ("same-vars" if note["samevars"] else "overlapping-vars")
     elif note["op"] == "or":
         shape = "same-vars-different-key-order" if note["keyorder"] else "same-vars"
-    elif note["op"] == "marg":
+    elif note["op"] in ("marg", "norm"):
         shape = "after-" + ("product" if "and" in before else "mix" if "or" in before else "scaling" if "scale" in before else "constructor")
     else:
         shape = "any"
@@ -1171,7 +1308,16 @@ def judge_factor_case(ctx, case, steps, paths, *, real=None, label=""):
         # marginal" - judged unless a group has total weight zero (then log(0) = -inf enters the scores and the
         # constructor answers all-zero probabilities on the unchanged tree as well; counted, not judged)
         marg_clause = op == "marg" and not note.get("zerogroup", False) and any(w > 0 for _, w in exp_rows)
-        clause_level = op == "and" or (op == "or" and note["samevars"]) or marg_clause
+        # normalize() of a product: "the product ... is the *normalised* natural join": the row weights of the
+        # normalised table are the normalised products and sum to one.  (After other operations: drift level, but a
+        # later mixture that uses the table is still judged.)  A table without weight (Z = 0) is not judged at all.
+        before = [i["op"] for i in case["prog"][:si - 1]]
+        if op == "norm" and note.get("zerototal", False):
+            ctx.count("normalize_of_table_without_weight_not_judged")
+            outs = outs[:si - 1] + [None] * (len(case["prog"]) - si + 1)
+            break
+        norm_clause = op == "norm" and "and" in before
+        clause_level = op == "and" or (op == "or" and note["samevars"]) or marg_clause or norm_clause
         if isinstance(out, tuple) and op == "marg" and not steps[si - 1]["res"]["rows"]:
             # marginalize() of an empty table raises ValueError (zip(*[])): outside the statement, counted
             ctx.count("marginalize_of_empty_table_raises")
@@ -1201,6 +1347,8 @@ def judge_factor_case(ctx, case, steps, paths, *, real=None, label=""):
                 ctx.count("mix_returned_operand_with_unnormalised_probs")
         elif marg_clause:
             prob, dr = pr, (wt or od)
+        elif norm_clause:
+            prob, dr = wt, od
         else:
             # constructor / scaling / marginal with an empty group: outside the statement, weights only
             prob, dr = None, (wt or od)
@@ -1210,8 +1358,8 @@ def judge_factor_case(ctx, case, steps, paths, *, real=None, label=""):
         if prob is not None:
             ok = False
             if clause_level:
-                ctx.violation(factor_signature(note, "wrong-weights" if op == "or" else "wrong-probabilities", upstream, ex,
-                                               [i["op"] for i in case["prog"][:si - 1]]), f"{op}: {prob}",
+                ctx.violation(factor_signature(note, "wrong-weights" if op in ("or", "norm") else "wrong-probabilities", upstream, ex,
+                                               before), f"{op}: {prob}",
                               {"kind": "factor", "case": case, "paths": {str(k): list(v) for k, v in paths.items()}, "step": si})
                 violated = True
             else:
@@ -1299,7 +1447,7 @@ def run_factor_exh(ctx, family, res=None):
 def start_factor(ctx):
     """Generates the factor cases and starts their TLC runs in the background."""
     rng = random.Random(ctx.seed * 2003 + 181)
-    n = 1200 if ctx.tier == "quick" else 8000
+    n = 1000 if ctx.tier == "quick" else 8000
     cases = make_factor_cases(rng, n)
     chunks = [cases[k:k + 2000] for k in range(0, len(cases), 2000)]
     futs = [_POOL.submit(factor_batch_tlc, ctx, ch, str(i)) for i, ch in enumerate(chunks)]
